@@ -293,6 +293,21 @@ func genDoc(r *coqfmt.Rng, t reflect.Type, bad *int) *doc {
 // ---- single-token corruption ----
 var tokRe = regexp.MustCompile(`"(?:[^"\\]|\\.)*"|-?[0-9]+|[A-Za-z_][A-Za-z0-9_-]*|\n[ ]*|[ ]+|.`)
 
+// tokens of each concrete syntax beyond those a rendered document contains:
+// every token kind of the format can be spliced in by a corruption
+var fmtTokens = [][]string{
+	// JSON
+	{"null", "true", "false", "1.5", "1e2", "-", "-0", "\"\\u00e9\"", "\"\\q\"", "[", "]", "{", "}", ":", ",", "\"", " ", "\n", "\t", "/*c*/", "//c"},
+	// YAML
+	{"---", "...", "&a ", "*a", "? ", "| ", "> ", "# c", "- ", "~", "null", "yes", "no", "on", "0x1f", "0o17", "1_000", "1.5", ".inf", "2001-12-14", "'single'", "{", "}", "[", "]", ":", ": ", ",", "\n", "\n  ", "\t", "%YAML 1.1", "<<: ", "`", "@"},
+	// TOML
+	{"[t]", "[[t]]", "[t.u]", "#c", "'''", "\"\"\"", "'lit'", "1979-05-27T07:32:00Z", "07:32:00", "1.5", "inf", "nan", "0x1F", "0o17", "0b11", "1_000", "+1", "true", "false", "=", ".", ",", "{", "}", "[", "]", "\n", "\"k\" = ", "a.b = ", "\\"},
+	// Cue
+	{"//c", "_|_", "null", "1.5", "1e2", "*1", "|", "&", "string", "int", "number", "...", "_", "_x", "#D", "let ", "if ", "for ", "import ", "package p", "'bytes'", "\"\"\"", "#\"raw\"#", "{", "}", "[", "]", ":", ",", "?", "!", "=", "==", "<", ">", "\n", "0x1f", "0o17", "0b11", "1_000", "1K", "(", ")", "\\(x)"},
+}
+
+var curFmt int // format of the text being corrupted
+
 func corrupt(r *coqfmt.Rng, text string) string {
 	toks := tokRe.FindAllString(text, -1)
 	if len(toks) == 0 {
@@ -308,8 +323,10 @@ func corrupt(r *coqfmt.Rng, text string) string {
 		return text + "]"
 	}
 	i := sig[r.Intn(len(sig))]
-	punct := []string{"{", "}", "[", "]", ":", ",", "=", "\"", "-", "#", ".", "|", "&", "*"}
-	switch r.Intn(6) {
+	punct := fmtTokens[curFmt]
+	switch r.Intn(7) {
+	case 6: // splice a token of the format in front of the chosen one
+		toks[i] = coqfmt.Pick(r, punct) + toks[i]
 	case 0: // delete
 		toks[i] = ""
 	case 1: // duplicate
@@ -622,6 +639,7 @@ func run(raw json.RawMessage) driver.Result {
 		}
 	default: // corrupt
 		mr := coqfmt.NewRng(in.Mut)
+		curFmt = in.Fmt
 		text := corrupt(mr, render(in.Fmt, d))
 		gd, gerr, outside := genericParse(in.Fmt, text)
 		v, err, p := decodeWith(in.Wrap, in.Fmt, text, PT)
